@@ -151,7 +151,7 @@ func init() {
 	run.Register(&run.Def{
 		ID:          "C04",
 		Level:       "exploration",
-		Rule:        "bounded-exhaustive: a cross-section of every batch family of C01/C02/C03/C12 (and the vector family under the vectors tag) x their chunk modes, under both build tags: Persist(path) and WriteTo(buffer) must emit identical bytes; the footer is parsed by an independent decoder (document count, chunk mode, version 16, CRC-32 over all preceding bytes); Open must report the same CRC/version/chunk mode/count; the complete dump (terms, postings, stored, doc values, thesauri; vector searches under the vectors tag) of the opened segment must equal that of the in-memory one and the reference. Non-trivial = every batch with >= 1 document.",
+		Rule:        "bounded-exhaustive: a cross-section of every batch family of C01/C02/C03/C12 (and the vector family under the vectors tag), plus a 'big' family whose stored data (100 B .. 2.2 MB incompressible) pushes all later offsets across the 2^14 and 2^21 varint width boundaries, x their chunk modes, under both build tags: Persist(path) and WriteTo(buffer) must emit identical bytes; the footer is parsed by an independent decoder (document count, chunk mode, version 16, CRC-32 over all preceding bytes); Open must report the same CRC/version/chunk mode/count; the complete dump (terms, postings, stored, doc values, thesauri; vector searches under the vectors tag) of the opened segment must equal that of the in-memory one and the reference. Non-trivial = every batch with >= 1 document.",
 		Assumptions: batchAssumptions,
 		Bounds:      map[string]string{"quick": "cells N<=1 all + special-shape cells N<=3, columns N<=5, boundary, stored, dv (2 chunk sizes), synonym families; vector family N<=3 under vectors tag", "thorough": "all families at their thorough bounds"},
 		Flavours:    plainAndVec,
